@@ -11,11 +11,12 @@ PID = 'C10'
 
 
 def weights(rng, cid=0):
-    """None / pre / post with a stable first- or second-order SISO filter (discrete state space)"""
+    """None / pre / post with a stable first- or second-order SISO filter (discrete state space); the order alternates
+    deterministically so that every (type, order, number of inputs) combination occurs"""
     if (cid // 6) % 3 == 0:
         return None
     a = float(rng.uniform(0.1, 0.8))
-    if rng.random() < 0.6:
+    if (cid // 18) % 2 == 0:
         ss = (np.array([[a]]), np.array([[1.0]]), np.array([[float(rng.uniform(0.3, 1.5))]]), np.array([[float(rng.uniform(0.0, 1.0))]]))
     else:
         b = float(rng.uniform(-0.5, 0.5))
@@ -94,6 +95,34 @@ def run(res, tier):
             bad.append(dict(info, **desc, X=X.tolist()))
         if len(samples) < 3:
             samples.append(desc)
+    # weights with a large gain on two input channels (second-order filters whose state matrix is not a multiple of the
+    # identity), lightly damped plant: the cascade must be the documented one (one copy of the SISO filter per channel)
+    w_diag = (np.diag([0.9, 0.5]), np.array([[1.0], [1.0]]), np.array([[0.5, -0.4]]), np.array([[0.2]]))
+    w_tri = (np.array([[0.7, 0.4], [0.0, 0.6]]), np.array([[0.0], [1.0]]), np.array([[1.0, 0.2]]), np.array([[0.5]]))
+    sweep = [(c, t, w) for c in (L.LmiEdmdHinfReg, L.LmiDmdcHinfReg) for t in ('pre', 'post') for w in (w_diag, w_tri)]
+    for j, (cls, typ, wss) in enumerate(sweep if tier != 'quick' else sweep[::2] + sweep[1::4]):
+        A0 = np.array([[0.9, 0.2, 0.0], [-0.2, 0.9, 0.1], [0.0, -0.1, 0.8]]); B0 = np.array([[0.5, 0.0], [0.0, 0.3], [0.2, 0.4]])
+        rows = []
+        for e in range(2):
+            x = rng.normal(size=3)
+            for k in range(60):
+                u = np.array([np.sin(0.05 * k * (e + 1)), np.cos(0.11 * k)]) + 0.3 * rng.normal(size=2)
+                rows.append([float(e)] + list(x) + list(u))
+                x = A0 @ x + B0 @ u
+        X = np.array(rows)
+        try:
+            reg = cls(alpha=0.1, max_iter=8, weight=(typ,) + wss, solver_params=lmi.SOLVER).fit(X, n_inputs=2, episode_feature=True)
+        except Exception:  # noqa
+            dist['fit_error'] = dist.get('fit_error', 0) + 1
+            continue
+        dist['high_gain_weight_sweep'] = dist.get('high_gain_weight_sweep', 0) + 1
+        gamma = float(np.ravel(reg.gamma_)[0])
+        desc = dict(estimator=repr(reg), family=cls.__name__, data='lightly damped 3-state 2-input', gamma=gamma,
+                    n_iter=int(reg.n_iter_), stop_reason=str(reg.stop_reason_))
+        common.note_case('fit', desc['estimator'], X)
+        info = check(reg, 3, lmi.ss_freq(*wss), gamma, desc, X)
+        if info:
+            bad.append(dict(info, **desc, X=X.tolist()))
     ev = sum(v for k, v in dist.items() if k != 'fit_error')
     res.coverage.update(
         programs=ev, disagreements_checked=ev, evaluations=ev, distinct_nontrivial=ev,
